@@ -8,6 +8,7 @@ package fakeprom
 //	defer u.Close()
 //	u.URL()            // http://127.x.y.z:port
 //	u.Observable()     // false for ModeRefused as default mode: nothing listens, so contacts cannot be logged
+//	u.SetMode(m)       // change the fault mode of the live upstream (same address): phases of one failover group
 //	u.Contacts()       // every request that reached the handler: endpoint, arrival and completion tick
 //
 // Modes (Modes lists them in table order):
@@ -31,6 +32,7 @@ import (
 	"fmt"
 	"net"
 	"net/http"
+	"os"
 	"strconv"
 	"sync"
 	"sync/atomic"
@@ -78,10 +80,15 @@ type Contact struct {
 	Arrived  int64  `json:"arrived"`
 	Done     int64  `json:"done"` // tick taken just before the answer is written (timeout: when the client was seen to give up)
 	Mode     Mode   `json:"mode"`
+	// Gone: the client had already given the request up when it reached the handler (a slice of a range query that
+	// was cancelled because a sibling failed can be read by the server after the whole query has returned)
+	Gone bool `json:"gone,omitempty"`
 }
 
 type Upstream struct {
+	conns    atomic.Int64 // connections accepted and not yet closed
 	Index    int
+	modeMu   sync.RWMutex
 	def      Mode
 	per      map[string]Mode
 	clock    *Clock
@@ -99,45 +106,108 @@ func NewUpstream(index int, def Mode, per map[string]Mode, clock *Clock) *Upstre
 	}
 	u := &Upstream{Index: index, def: def, per: per, clock: clock, fd: -1}
 	if def == ModeRefused {
-		u.bindOnly()
+		if err := u.bindOnly([4]byte{127, 0, 0, 1}, 0); err != nil {
+			panic(err)
+		}
 		return u
 	}
-	u.ln = Listen()
-	u.addr = u.ln.Addr().String()
-	u.srv = &http.Server{Handler: http.HandlerFunc(u.handle)}
-	go func() { _ = u.srv.Serve(u.ln) }()
+	u.serve(Listen())
 	return u
 }
 
-// bindOnly reserves a loopback port without listening on it.
-func (u *Upstream) bindOnly() {
+func (u *Upstream) serve(ln net.Listener) {
+	u.ln = ln
+	u.addr = ln.Addr().String()
+	u.srv = &http.Server{Handler: http.HandlerFunc(u.handle), ConnState: func(_ net.Conn, st http.ConnState) {
+		switch st {
+		case http.StateNew:
+			u.conns.Add(1)
+		case http.StateClosed, http.StateHijacked:
+			u.conns.Add(-1)
+		}
+	}}
+	srv := u.srv
+	go func() { _ = srv.Serve(ln) }()
+}
+
+// bindOnly reserves a loopback port (0 = any) without listening on it.
+func (u *Upstream) bindOnly(ip [4]byte, port int) error {
 	fd, err := syscall.Socket(syscall.AF_INET, syscall.SOCK_STREAM, 0)
 	if err != nil {
-		panic(err)
+		return err
 	}
-	sa := &syscall.SockaddrInet4{Port: 0, Addr: [4]byte{127, 0, 0, 1}}
-	if err := syscall.Bind(fd, sa); err != nil {
+	_ = syscall.SetsockoptInt(fd, syscall.SOL_SOCKET, syscall.SO_REUSEADDR, 1)
+	if err := syscall.Bind(fd, &syscall.SockaddrInet4{Port: port, Addr: ip}); err != nil {
 		_ = syscall.Close(fd)
-		panic(err)
+		return err
 	}
 	got, err := syscall.Getsockname(fd)
 	if err != nil {
 		_ = syscall.Close(fd)
-		panic(err)
+		return err
 	}
+	sa := got.(*syscall.SockaddrInet4)
 	u.fd = fd
-	u.addr = "127.0.0.1:" + strconv.Itoa(got.(*syscall.SockaddrInet4).Port)
+	u.addr = fmt.Sprintf("%d.%d.%d.%d:%d", sa.Addr[0], sa.Addr[1], sa.Addr[2], sa.Addr[3], sa.Port)
+	return nil
+}
+
+// SetMode changes the default fault mode of a live upstream, keeping its address: the same failover group can be
+// walked through several phases (an upstream that times out and then recovers ...). refused -> anything starts
+// listening on the reserved socket; anything -> refused closes the server with all its connections and re-binds
+// the port without listening (an error means the port could not be re-bound: the case cannot be judged).
+// Call it only while no request is in progress.
+func (u *Upstream) SetMode(m Mode) error {
+	u.modeMu.Lock()
+	defer u.modeMu.Unlock()
+	old := u.def
+	switch {
+	case old == m:
+	case old == ModeRefused:
+		if err := syscall.Listen(u.fd, 128); err != nil {
+			return err
+		}
+		f := os.NewFile(uintptr(u.fd), "fakeprom-upstream")
+		ln, err := net.FileListener(f)
+		_ = f.Close() // FileListener works on a duplicate
+		u.fd = -1
+		if err != nil {
+			return err
+		}
+		u.serve(ln)
+	case m == ModeRefused:
+		host, portStr, err := net.SplitHostPort(u.addr)
+		if err != nil {
+			return err
+		}
+		port, _ := strconv.Atoi(portStr)
+		var ip [4]byte
+		copy(ip[:], net.ParseIP(host).To4())
+		_ = u.srv.Close()
+		u.srv, u.ln = nil, nil
+		if err := u.bindOnly(ip, port); err != nil {
+			return fmt.Errorf("cannot re-bind %s: %w", u.addr, err)
+		}
+	}
+	u.def = m
+	return nil
 }
 
 func (u *Upstream) URL() string      { return "http://" + u.addr }
-func (u *Upstream) Observable() bool { return u.def != ModeRefused }
-func (u *Upstream) Default() Mode    { return u.def }
+func (u *Upstream) Observable() bool { return u.Default() != ModeRefused }
+
+func (u *Upstream) Default() Mode {
+	u.modeMu.RLock()
+	defer u.modeMu.RUnlock()
+	return u.def
+}
 
 func (u *Upstream) ModeFor(endpoint string) Mode {
-	if m, ok := u.per[endpoint]; ok && u.def != ModeRefused {
+	def := u.Default()
+	if m, ok := u.per[endpoint]; ok && def != ModeRefused {
 		return m
 	}
-	return u.def
+	return def
 }
 
 func (u *Upstream) Close() {
@@ -148,6 +218,26 @@ func (u *Upstream) Close() {
 	if u.srv != nil {
 		_ = u.srv.Close()
 	}
+}
+
+// Quiesce waits until the upstream has no open connection (every request leaves its connection: "Connection: close")
+// and stays so for a few milliseconds, or the timeout passes. Between two calls of a sequence it keeps requests of the
+// previous call - cancelled slices the server gets to read late - out of the next call's books. Returns false on timeout.
+func (u *Upstream) Quiesce(timeout time.Duration) bool {
+	deadline := time.Now().Add(timeout)
+	calm := 0
+	for time.Now().Before(deadline) {
+		if u.conns.Load() <= 0 {
+			calm++
+			if calm >= 3 {
+				return true
+			}
+		} else {
+			calm = 0
+		}
+		time.Sleep(2 * time.Millisecond)
+	}
+	return false
 }
 
 func (u *Upstream) Contacts() []Contact {
@@ -193,9 +283,20 @@ func (u *Upstream) handle(w http.ResponseWriter, r *http.Request) {
 	form := ParseRequest(r)
 	ep := EndpointOfPath(r.URL.Path)
 	mode := u.ModeFor(ep)
+	// no connection outlives its request: SetMode may close and re-open the listener, and a client that kept an
+	// idle connection to the old one would trip over it on the next request
+	w.Header().Set("Connection", "close")
+	// give net/http a moment to notice a connection the client has already dropped (the body has been read, so its
+	// background read is running): such a request is logged as Gone
+	gone := false
+	select {
+	case <-r.Context().Done():
+		gone = true
+	case <-time.After(3 * time.Millisecond):
+	}
 	u.mu.Lock()
 	idx := len(u.contacts)
-	u.contacts = append(u.contacts, Contact{Endpoint: ep, Arrived: u.clock.Tick(), Mode: mode})
+	u.contacts = append(u.contacts, Contact{Endpoint: ep, Arrived: u.clock.Tick(), Mode: mode, Gone: gone})
 	u.mu.Unlock()
 	done := func() {
 		u.mu.Lock()
